@@ -170,12 +170,13 @@ def solve_one(job):
     EM = {"smt.mbqi": False, "smt.random_seed": 7}
     MB = {"smt.ematching": False}
     stages = [("z3", {}, quick), ("z3-ematch", EM, quick), ("z3-mbqi", MB, quick)]
-    if use_cvc5 and has_str and "define-fun" not in text:
+    cvc5_ok = use_cvc5 and "define-fun" not in text and "(_ map" not in text  # z3-only syntax
+    if cvc5_ok and has_str:
         stages.append(("cvc5", None, 2 * quick))
     if text_ground is not None:
         stages.append(("ground", None, full))
     stages += [("z3", {}, full), ("z3-ematch", EM, full), ("z3-mbqi", MB, full)]
-    if use_cvc5 and "define-fun" not in text:
+    if cvc5_ok:
         stages.append(("cvc5", None, 2 * full))
     st, model, why, backend = "unknown", None, "", "z3"
     if text_ground is not None:
@@ -186,7 +187,7 @@ def solve_one(job):
             st_ = "unknown"
         if st_ == "unsat":
             return Verdict(name, "unsat", time.time() - t0, "z3-ground", None, kind, path_id, line, False, "")
-        if use_cvc5 and has_str and "define-fun" not in text_ground:
+        if use_cvc5 and has_str and "define-fun" not in text_ground and "(_ map" not in text_ground:
             st_, _ = _solve_cvc5(text_ground, quick)
             if st_ == "unsat":
                 return Verdict(name, "unsat", time.time() - t0, "cvc5-ground", None, kind, path_id, line, False, "")
